@@ -128,3 +128,26 @@ def half_turns(h):
     _inv(h, q, out, 'shepperd@half-turn')
     out2 = np.array(DCM(np.identity(3)).to_quaternion('shepperd'))
     h.check('identity', h.eq_up_to_sign(out2, np.array([1.0, 0.0, 0.0, 0.0])))
+
+
+def _mk_default(route):
+    @harness(f'C02/default-method/{route}', functions=FD + ['ahrs.common.orientation:shepperd'], max_paths=64,
+             bounds='paths<=64')
+    def hf(h, route=route):
+        q = h.unit_quat('q')
+        R = rot.R_of_q(q)
+        _strata(h, q)
+        h.lemma_rotation(R)
+        if route == 'DCM.to_quaternion':
+            out = np.array(DCM(R.copy()).to_quaternion())
+        elif route == 'Quaternion(dcm=)':
+            out = np.array(Quaternion(dcm=R.copy()))
+        else:
+            out = np.array(QuaternionArray(DCM=R.copy()[None]))[0]
+        _inv(h, q, out, 'default method')
+    hf.__doc__ = f"the default method (no method keyword) through {route}: +-q for every rotation including exact half-turns (w = 0)"
+    return hf
+
+
+for _r in ('DCM.to_quaternion', 'Quaternion(dcm=)', 'QuaternionArray(DCM=)'):
+    _mk_default(_r)
